@@ -222,7 +222,7 @@ class Factory(object):
     # ------------------------------------------------------------------ list graders
     def listgrader(self, depth=1):
         rng = self.rng
-        mode = rng.choice(['flat', 'flat', 'subgrader_list', 'grouped', 'multi_answers'])
+        mode = rng.choice(['flat', 'flat', 'subgrader_list', 'grouped', 'multi_answers', 'siblings'])
         cfg = {'partial_credit': rng.random() < 0.7}
         if mode in ('flat', 'multi_answers'):
             n = rng.randint(2, 4)
@@ -247,6 +247,26 @@ class Factory(object):
             wrong = [['zzz' if sub['cls'] == 'StringGrader' else '77'] * n]
             desc = {'class': 'ListGrader', 'mode': mode, 'ordered': ordered, 'config': cfg, 'answers': all_answers, 'subgrader': sub['cls']}
             return {'cls': 'ListGrader', 'desc': desc, 'make': make, 'ninputs': n, 'good': good, 'partial': partial_in, 'wrong': wrong}
+        if mode == 'siblings':
+            # ordered list whose answers refer to other inputs through sibling variables (one shared FormulaGrader)
+            form = rng.choice(['forward', 'backward'])
+            if form == 'forward':
+                answers = ['x+1', 'sibling_1^2', 'sibling_1+sibling_2']
+                good = [['x+1', '(x+1)^2', 'x+1+(x+1)^2'], ['2*x', '4*x^2', '2*x+4*x^2']]
+                partial_in = [['x+1', '(x+1)^2', 'x'], ['x+1', 'x^2', 'x+1+x^2']]
+            else:
+                answers = ['sibling_2+sibling_3', 'x', '2*x']
+                good = [['3*x', 'x', '2*x']]
+                partial_in = [['3*x', 'x', 'x'], ['x', 'x', '2*x']]
+
+            def make(**ov):
+                import mitxgraders as M
+                c = dict(cfg)
+                c.update(ov)
+                return M.ListGrader(answers=list(answers), subgraders=M.FormulaGrader(variables=['x']), ordered=True, **c)
+            desc = {'class': 'ListGrader', 'mode': 'siblings', 'config': cfg, 'answers': answers}
+            return {'cls': 'ListGrader', 'desc': desc, 'make': make, 'ninputs': 3, 'good': good, 'partial': partial_in,
+                    'wrong': [['1', '2', '3'], ['x', 'q', '2*x'], ['3*x', 'x+', '2*x'], ['sibling_2', 'x', 'x']]}
         if mode == 'subgrader_list':
             def make(**ov):
                 import mitxgraders as M
